@@ -43,9 +43,16 @@ static int
 varint_decode(ByteBuffer *b, const size_t maxoctets, union varint64 *n)
 {
     const unsigned char *buf = b->data + b->offset;
+    /* Bound by the buffer's memory, not its fill mark: Callers hand in buffers
+     * set up with byte_buffer_space() around encoded data as well. */
+    const size_t rest = b->size - b->offset;
     n->u = 0u;
 
     for (size_t i = 0u; i < maxoctets; ++i) {
+        if (i >= rest) {
+            /* Cut off by the end of the buffer: Consume nothing. */
+            return -ENODATA;
+        }
         const unsigned char datum = buf[i];
         n->u |= (uint64_t)(datum & VARINT_DATA_MASK) << (i * VARINT_DATA_BITS);
         if (varint_done(datum)) {
